@@ -110,6 +110,26 @@ func kClassify(a string) kClass {
 
 var kCounter int
 
+// ipv6Loopback: this machine has ::1 (decided once).
+var ipv6Loopback = func() bool {
+	l, err := net.Listen("tcp", "[::1]:0")
+	if err != nil {
+		return false
+	}
+	l.Close()
+	return true
+}()
+
+func freePort6() int {
+	l, err := net.Listen("tcp", "[::1]:0")
+	if err != nil {
+		return 0
+	}
+	p := l.Addr().(*net.TCPAddr).Port
+	l.Close()
+	return p
+}
+
 func freePort() int {
 	l, err := net.Listen("tcp", "127.0.0.1:0")
 	if err != nil {
@@ -175,6 +195,10 @@ func kGen(seed int64, dir string) kHistory {
 			st.Env = pick("none", "none", "none", "foreign")
 		case 6, 7:
 			st.Addr = fmt.Sprintf("tcp:127.0.0.1:%d%s", freePort(), tail)
+			if ipv6Loopback && r.Intn(3) == 0 {
+				// a host that is an IPv6 literal: what the service can bind a client can dial
+				st.Addr = fmt.Sprintf("tcp:[::1]:%d%s", freePort6(), tail)
+			}
 			st.Env = pick("none", "none", "none", "foreign")
 		case 8:
 			st.Addr = pick("", "foo", "unix", "tcp", "@abstract", "/run/sock", "unix@x", ";")
@@ -579,6 +603,21 @@ func (k *kRunner) step(i int, st kStep) bool {
 		}
 		if succ != nil {
 			succ.Shutdown()
+		}
+	}
+	// ---- nobody listens any more (or never did): a client given the string
+	// returns - with an error, or connected to the foreign listener - also under a
+	// context that never ends
+	if cl.kind == "valid" {
+		k.count["client.dial-nobody-listening"]++
+		if _, ok := k.guarded(i, "NewConnection without deadline, nobody listening", func() error {
+			c, err := varlink.NewConnection(context.Background(), st.Addr)
+			if err == nil {
+				c.Close()
+			}
+			return nil
+		}); !ok {
+			return false
 		}
 	}
 	if bound && p != "" && foreign == nil && exists(p) && isSocket(p) {
